@@ -31,6 +31,14 @@ SUMMARY = {
     "C18-1": ("`readsplinefitstable` deletes the old table inside the try", "occupied handle + failing read, then any use", "caught"),
     "C19-1": ("`convolve` allocates the new knot vector before freeing the old and keeps the others", "convolution along an axis with several hundred knots", "caught"),
     "C20-1": ("`write_key` update path frees the old value before allocating", "allocation failure at exactly that point", "caught"),
+    "C03-2": ("`break` lost after `case 6` of the per-dimension evaluator dispatch (falls into `case 7`)", "6-D table served by the per-dimension specialisation; 7-D cores then read past the per-dimension arrays", "caught (DP-2)"),
+    "C05-2": ("same edit as C03-2 (independent agent)", "as C03-2; the wrong core reads past the per-dimension arrays", "missed at first under C05 (caught under C03); C05 now runs the dispatch rules"),
+    "C06-2": ("`maxdatalen` 68 -> FLEN_VALUE-1 in `write_key`", "auxiliary string value of 69-70 characters (truncated on write, round trip differs)", "missed at first under C06 (KS-1 ran only under C16); C06 now runs KS-1/UW-3"),
+    "C08-2": ("EXTENTS HDU written with a private status that is only printed", "I/O failure (full device) surfacing while that HDU is written", "caught (ED-1)"),
+    "C10-2": ("t-spline to b-spline running sum in `glamfit_complex` loses `*stride2` in the block base", "fit with >= 3 dimensions and the monotonic dimension strictly inside", "caught (SG-3)"),
+    "C14-2": ("transfer matrix filled only in a band (`j < min(i/(q+1)+1, naxes)`)", "convolution where a new spline overlaps old splines outside the band", "missed at first; UW-4 (perfect fill / apply nests) added"),
+    "C18-2": ("`if(periods)` guards removed from `permuteDimensions`", "handle populated by fit (periods null), then permute: crash", "missed at first; NL-1 added (which also found D27, D28)"),
+    "C19-2": ("knot term of `estimateMemory` moved before `nknots *= n`", "any convolution declared to estimateMemory", "missed at first; SM-2 adjust-before-count added"),
     "C20-2": ("`extents[0] = nullptr` removed from the reader", "allocation failure at the 7th request with a non-zero-filling allocator", "caught"),
 }
 try:
